@@ -46,6 +46,9 @@ type C07Case struct {
 	Chunked bool `json:"chunked,omitempty"`
 	// Tracing: observability.tracing is enabled (the handlers are wrapped, a tracer provider is installed)
 	Tracing bool `json:"tracing,omitempty"`
+	// Detour (pull / worker modes): between acceptance and delivery an operator cancels every stored
+	// message by id and then resumes or requeues it: "cancel-resume" | "cancel-requeue"
+	Detour string `json:"detour,omitempty"`
 }
 
 func c07Text(c C07Case) string {
@@ -199,6 +202,7 @@ func genC07Case() *rapid.Generator[C07Case] {
 		}
 		c.Tracing = rapid.IntRange(0, 3).Draw(t, "tracing") == 0
 		c.Redeliver = rapid.SampledFrom([]int{0, 0, 1, 2, 3}).Draw(t, "redeliver")
+		c.Detour = rapid.SampledFrom([]string{"", "", "", "cancel-resume", "cancel-requeue"}).Draw(t, "detour")
 		nm := rapid.SampledFrom([]int{0, 0, 1, 2}).Draw(t, "nmore")
 		for i := 0; i < nm; i++ {
 			b := genBody(t, c.MaxBody)
@@ -413,6 +417,35 @@ func runC07(c C07Case, _ bool) *fOutcome {
 		for _, m := range stored {
 			if !check("stored after operator reads", m.ID, m.Payload, m.Headers) {
 				return out
+			}
+		}
+	}
+	if c.Detour != "" && c.Mode != "push" {
+		var ids []string
+		if stored, err := w.dump(); err == nil {
+			for _, m := range stored {
+				ids = append(ids, m.ID)
+			}
+		}
+		body, _ := json.Marshal(map[string]any{"ids": ids})
+		hdr := [][2]string{{"Content-Type", "application/json"}, {"X-Hookaido-Audit-Reason", "verif"}}
+		second := "/messages/resume"
+		if c.Detour == "cancel-requeue" {
+			second = "/messages/requeue"
+		}
+		for _, path := range []string{"/messages/cancel", second} {
+			rec := serve(w.adminH, FReq{Method: "POST", Path: path, Host: "a.example.com", Remote: "127.0.0.1:1", Headers: hdr, Body: body})
+			if rec.Code != 200 {
+				out.Failure = ffail("HARNESS", "detour", 0, "%s answered %d %s", path, rec.Code, rec.Body.String())
+				return out
+			}
+		}
+		out.Labels["operator-"+c.Detour] = true
+		if stored, err := w.dump(); err == nil {
+			for _, m := range stored {
+				if !check("stored after the operator canceled and revived it", m.ID, m.Payload, m.Headers) {
+					return out
+				}
 			}
 		}
 	}
